@@ -25,7 +25,7 @@ MANIFEST = {
     "ref": "DESIGN.md §3 C02, §2.3",
 }
 
-FORMATS = ["h5", "xtc", "trr", "dcd", "fixed.dcd", "nc", "mdcrd", "xyz", "xyz.gz", "lammpstrj", "gro", "pdb", "pdb.gz", "dtr", "arc"]
+FORMATS = ["h5", "xtc", "trr", "dcd", "fixed.dcd", "nc", "mdcrd", "nobox10.mdcrd", "xyz", "xyz.gz", "lammpstrj", "gro", "pdb", "pdb.gz", "dtr", "arc"]
 HAS_TOP = {"h5", "pdb", "pdb.gz", "lh5", "gro", "arc"}
 NATOMS = 8
 AI_MENU = [None, [0], [1, 3], [0, 2, 3, 6], [1, 2, 3, 4, 5, 6, 7]]
@@ -47,6 +47,21 @@ def _ref_traj(n_frames, seed):
     return md.Trajectory(xyz, top, time=np.arange(n_frames, dtype=float) * 2.0,
                          unitcell_lengths=np.round(np.full((n_frames, 3), 4.0) + 0.125 * np.arange(n_frames)[:, None], 3),
                          unitcell_angles=np.full((n_frames, 3), 90.0))
+
+
+def _ref_traj10(n_frames, seed):
+    """Ten atoms and NO unit cell: in the AMBER text format a frame is then exactly three full 10-field lines with no
+    box line behind it (frame boundaries are found by counting fields or lines)."""
+    import mdtraj as md
+    rng = np.random.RandomState(177 + seed)
+    top = md.Topology()
+    ch = top.add_chain()
+    for r in range(5):
+        res = top.add_residue("GLY", ch)
+        top.add_atom("N", md.element.nitrogen, res)
+        top.add_atom("CA", md.element.carbon, res)
+    xyz = np.round(rng.rand(n_frames, 10, 3) * 2 + 0.1 * np.arange(n_frames)[:, None, None], 3).astype(np.float32)
+    return md.Trajectory(xyz, top, time=np.arange(n_frames, dtype=float) * 2.0)
 
 
 def _arc_file(repo, path, n):
@@ -99,6 +114,9 @@ def make_files(scratch, repo, fmt, n, seed, copies=3):
             _arc_file(repo, p, n)
         elif fmt == "fixed.dcd":
             _dcd_fixed_file(p, _ref_traj(n, seed + 10 * c), [0, 3, 4])
+        elif fmt == "nobox10.mdcrd":
+            t0 = _ref_traj10(n, seed)
+            _ref_traj10(n, seed + 10 * c).save(p)
         else:
             t = _ref_traj(n, seed + 10 * c)
             t.save(p)
